@@ -140,6 +140,28 @@ fn gen_key(rng: &mut Rng, style: u64, i: usize) -> Key {
     }
 }
 
+/// Many tiny entries: hundreds of restart intervals per data block (limits of the binary / hash index).
+pub fn gen_dense_stream(rng: &mut Rng) -> Vec<Item> {
+    let n = rng.range(300, 3000) as usize;
+    let mut out = Vec::with_capacity(n);
+    let mut seq_base = rng.range(1, 1000);
+    for i in 0..n {
+        let key = format!("{:04x}", i * 2 + 1).into_bytes();
+        let versions = if rng.chance(1, 20) { 2 } else { 1 };
+        for v in 0..versions {
+            let ty = match rng.below(16) {
+                0 => 1u8,
+                1 => 2,
+                _ => 0,
+            };
+            let value = if ty == 0 { vec![b'v'; rng.below(4) as usize] } else { vec![] };
+            out.push(Item { key: key.clone(), seqno: seq_base + 10 - v, ty, value });
+        }
+        seq_base += rng.below(3);
+    }
+    out
+}
+
 pub fn gen_stream(rng: &mut Rng, max_entries: usize, small: bool) -> Vec<Item> {
     let style = rng.below(6);
     let n_keys = rng.range(1, if small { 14 } else { 90 }) as usize;
@@ -471,8 +493,16 @@ pub fn check_table(t: &Table, s: &Settings, stream: &[Item], rng: &mut Rng, c: &
 
 pub fn run_case(seed: u64, case: u64, scratch: &Path, c: &mut Counters, small: bool, probe_budget: usize) -> (Option<Violation>, J, u64, bool) {
     let mut rng = Rng::derive(seed, case ^ 0x7ab1e);
-    let s = Settings::random(&mut rng, small);
-    let stream = gen_stream(&mut rng, if small { 60 } else { 400 }, small);
+    let mut s = Settings::random(&mut rng, small);
+    let dense = !small && rng.chance(1, 8);
+    let stream = if dense {
+        s.block_size = *rng.pick(&[4096, 8192, 16_384, 65_536]);
+        s.restart = *rng.pick(&[1, 1, 2, 16]);
+        s.hash_ratio = *rng.pick(&[0.0, 0.5, 0.75, 8.0]);
+        gen_dense_stream(&mut rng)
+    } else {
+        gen_stream(&mut rng, if small { 60 } else { 400 }, small)
+    };
     let mut sample = J::obj();
     sample.set("settings", s.describe());
     sample.set("entries", J::i(stream.len()));
@@ -495,6 +525,9 @@ pub fn run_case(seed: u64, case: u64, scratch: &Path, c: &mut Counters, small: b
         };
         let t = open_table(&path, &s, checksum, case).map_err(|e| fail("recover-error", format!("Table::recover returned Err: {e:?}")))?;
         bump(c, "tables", 1);
+        if dense {
+            bump(c, "dense_tables", 1);
+        }
         bump(c, "entries", stream.len() as u64);
         bump(c, &format!("blocks:{}", t.metadata.data_block_count.min(5)), 1);
         if t.metadata.data_block_count > 1 {
@@ -507,7 +540,7 @@ pub fn run_case(seed: u64, case: u64, scratch: &Path, c: &mut Counters, small: b
         bump(c, &format!("setting:bloom={}", s.bloom), 1);
         bump(c, &format!("setting:hash={}", s.hash_ratio), 1);
         bump(c, &format!("setting:global_seqno_nonzero={}", s.global_seqno > 0), 1);
-        check_table(&t, &s, &stream, &mut rng, c, if probe_budget > 0 { probe_budget } else if small { 120 } else { 600 })
+        check_table(&t, &s, &stream, &mut rng, c, if probe_budget > 0 { probe_budget } else if small { 120 } else if dense { 4000 } else { 600 })
     }));
     let _ = std::fs::remove_file(&path);
     let v = match r {
